@@ -43,6 +43,7 @@ func main() {
 	kDepth(r)
 	kPageNumber(r)
 	kParse(r)
+	kIndexed(r)
 	search(r)
 }
 
@@ -341,6 +342,54 @@ func kParse(r *vh.Run) {
 	}
 }
 
+// ------------------------------------------------------------------ K: ObjectStreamDict.IndexedObject bounds
+
+func kIndexed(r *vh.Run) {
+	vals := []int{0, 1, 2, 3, 4, 5, -1, -2, 1 << 31, -(1 << 31), 1<<63 - 1, -1 << 63, -1<<63 + 1, 1 << 62, 65535, 255}
+	for _, ln := range []int{-1, 0, 1, 2, 3, 5} { // -1: ObjArray == nil
+		var osd types.ObjectStreamDict
+		if ln >= 0 {
+			osd.ObjArray = make(types.Array, ln)
+			for i := range osd.ObjArray {
+				osd.ObjArray[i] = types.Integer(i)
+			}
+		}
+		idx := append([]int{ln - 1, ln, ln + 1}, vals...)
+		for k := 0; k < 12; k++ {
+			idx = append(idx, int(r.Rand.Uint64()))
+		}
+		for _, i := range idx {
+			res, pan := func() (res string, pan string) {
+				defer func() {
+					if e := recover(); e != nil {
+						res, pan = "panic", fmt.Sprint(e)
+					}
+				}()
+				o, err := osd.IndexedObject(i)
+				if err != nil {
+					return "err", ""
+				}
+				if v, ok := o.(types.Integer); !ok || int(v) != i {
+					return "wrong-object", ""
+				}
+				return "ok", ""
+			}()
+			if pan != "" {
+				r.OracleFail("panic:types.ObjectStreamDict.IndexedObject", map[string]any{"len": ln, "index": i}, pan)
+			} else if want := ln > 0 && i >= 0 && i < ln; (res == "ok") != want {
+				r.OracleFail("indexedobject-bounds", map[string]any{"len": ln, "index": i}, "got "+res)
+			} else {
+				r.OracleOK()
+			}
+			l := ln
+			if l < 0 {
+				l = 0
+			}
+			r.Case("indexed_object", []string{vh.Bool(ln < 0), vh.Int(int64(l)), vh.Int(int64(i))}, res)
+		}
+	}
+}
+
 // ------------------------------------------------------------------ O: the search
 
 func sha(b []byte) string { h := sha1.Sum(b); return hex.EncodeToString(h[:6]) }
@@ -500,6 +549,11 @@ func search(r *vh.Run) {
 	for _, g := range generatedDocs(deep) {
 		addJob("gen-"+g.name, g.data, allOps, "generatedDocs: "+g.name, g.expect)
 		r.Count("input:generated")
+	}
+	// 2b. cross-reference streams: widths, field values, targets, /Index /Size /First /N (xrefgen.go)
+	for _, g := range xrefStreamDocs(r.Rand, r.Pick(250, 6000)) {
+		addJob("gen-"+g.name, g.data, []string{"read", "vstrict", "vrelaxed", "optimize", "info", "pages"}, "xrefStreamDocs: "+g.name, "")
+		r.Count("input:xrefstream")
 	}
 	// 3. mutation stream
 	seeds := loadSeeds(r, repo, filepath.Join(bdir, "seedcache"))
